@@ -1,6 +1,7 @@
 import Skc.Model.Pelt
 import Skc.Model.Capa
 import Skc.Model.Pen
+import Skc.Model.Det
 /-! Line-protocol driver over the executable models (`lake exe skcdrv` or
     `lake env lean --run Driver.lean`): one operation per input line, one canonical output line
     per operation; ill-formed lines answer `bad-op` (never a default). Carrier: `Rat`. -/
@@ -88,6 +89,63 @@ def handlePen (aff : Bool) (ws : List String) : String :=
     if aff then toString (findAffected sav alpha betas) else fmt (penalise epsBeta sav alpha betas)
   | _ => "bad-op"
 
+/-- shared pseudo-random integer score (same definition in harness/scorers.py): a fixed hash of
+    `(seed, cut)` reduced modulo `R`, minus `neg` (so that negative scores occur) -/
+def hscore (seed R : Nat) (neg : Int) (c : List Nat) : Rat :=
+  let x := c.foldl (fun acc v => acc * 64 + v) seed
+  (((((x * 1103515245 + 12345) / 65536) % R : Nat) : Int) - neg : Int)
+
+def pairs : List Nat → List (Nat × Nat)
+  | a :: b :: l => (a, b) :: pairs l
+  | _ => []
+
+/-- `layout n minLen len1 step1 len2 step2 …` → the seeded intervals -/
+def handleLayout (ws : List String) : String :=
+  match ws.mapM (·.toNat?) with
+  | some (n :: minLen :: sched) =>
+    if sched.length % 2 ≠ 0 then "bad-op" else toString (seededFrom n minLen (pairs sched))
+  | _ => "bad-op"
+
+/-- `sbs n m seed R neg thr s1 e1 s2 e2 …` → `rows [(maximiser, score)…] cps […]` -/
+def handleSbs (ws : List String) : String :=
+  match ws with
+  | n :: m :: seed :: R :: neg :: thr :: rest =>
+    match n.toNat?, m.toNat?, seed.toNat?, R.toNat?, neg.toInt?, parseRat thr, rest.mapM (·.toNat?) with
+    | some _, some m, some seed, some R, some neg, some thr, some iv =>
+      if iv.length % 2 ≠ 0 ∨ R = 0 then "bad-op" else
+      let cs (s k e : Nat) : Rat := hscore seed R neg [s, k, e]
+      match runSbs cs m thr (pairs iv) with
+      | none => "err:empty-argmax"
+      | some (rows, cps) => s!"rows {rows.map (fun r => (r.1, fmt r.2))} cps {cps}"
+    | _, _, _, _, _, _, _ => "bad-op"
+  | _ => "bad-op"
+
+/-- `cbs n m seed R neg thr s1 e1 …` → `rows [((a, b), score)…] anoms […]` -/
+def handleCbs (ws : List String) : String :=
+  match ws with
+  | n :: m :: seed :: R :: neg :: thr :: rest =>
+    match n.toNat?, m.toNat?, seed.toNat?, R.toNat?, neg.toInt?, parseRat thr, rest.mapM (·.toNat?) with
+    | some _, some m, some seed, some R, some neg, some thr, some iv =>
+      if iv.length % 2 ≠ 0 ∨ R = 0 then "bad-op" else
+      let las (s a b e : Nat) : Rat := hscore seed R neg [s, a, b, e]
+      let (rows, an) := runCbs las m thr (pairs iv)
+      s!"rows {rows.map (fun r => (r.1, fmt r.2))} anoms {an}"
+    | _, _, _, _, _, _, _ => "bad-op"
+  | _ => "bad-op"
+
+/-- `mw n b off mdi seed R neg thr` → `scores […] cps […]` (`off = 0` is the code) -/
+def handleMw (ws : List String) : String :=
+  match ws with
+  | [n, b, off, mdi, seed, R, neg, thr] =>
+    match n.toNat?, b.toNat?, off.toNat?, mdi.toNat?, seed.toNat?, R.toNat?, neg.toInt?, parseRat thr with
+    | some n, some b, some off, some mdi, some seed, some R, some neg, some thr =>
+      if R = 0 ∨ b = 0 ∨ n < 2 * b then "bad-op" else
+      let cs (s k e : Nat) : Rat := hscore seed R neg [s, k, e]
+      let sc := mwScores cs n b off
+      s!"scores {fmtL ((List.range n).map sc)} cps {mwCpts sc n thr mdi}"
+    | _, _, _, _, _, _, _, _ => "bad-op"
+  | _ => "bad-op"
+
 def handle (line : String) : String :=
   let ws := (line.trimAscii.toString.splitOn " ").filter (· ≠ "")
   match ws with
@@ -95,6 +153,10 @@ def handle (line : String) : String :=
   | "capa" :: rest => handleCapa rest
   | "penalise" :: rest => handlePen false rest
   | "affected" :: rest => handlePen true rest
+  | "layout" :: rest => handleLayout rest
+  | "sbs" :: rest => handleSbs rest
+  | "cbs" :: rest => handleCbs rest
+  | "mw" :: rest => handleMw rest
   | _ => "bad-op"
 
 partial def loop (h : IO.FS.Stream) : IO Unit := do
